@@ -22,6 +22,8 @@ HARNESSES = [
     dict(name="main_tar2sqfs", file="main_tar2sqfs.c", label="proved",
          fp={"destroy": ["in_destroy", "it_destroy"]},
          timeout=300, cases=[dict(id="all", tier="quick")]),
+    dict(name="alloc", file="alloc.c", label="proved", timeout=300, native=False,
+         cases=[dict(id="all", tier="quick")]),
     dict(name="array_ops", file="array_ops.c", label="proved", unwind=66, timeout=600,
          cases=[dict(id="init", defines={"OP": 0}, tier="quick"),
                 dict(id="init_copy", defines={"OP": 1}, tier="quick"),
@@ -46,6 +48,11 @@ HARNESSES = [
          loops=["get_new_block"], timeout=600, defines={"BP_BS": 16},
          cases=[dict(id="end_file", defines={"FE_ENQUEUE": 0}, tier="quick"),
                 dict(id="enqueue", defines={"FE_ENQUEUE": 1}, tier="quick")]),
+    # cbmc 6.11 attaches no loop contract to a condition-less "for (;;)" (the
+    # clauses are silently dropped, caught by the driver's base/step count), so
+    # the drain loop of sqfs_block_processor_sync is unwound: backlog <= 4
+    dict(name="bp_finish", file="bp_finish.c", label="bounded(backlog <= 4)", fp=_FP_BP,
+         unwind=7, timeout=600, cases=[dict(id="all", tier="quick")]),
     dict(name="bp_fragment", file="bp_fragment.c",
          label="bounded(block index <= 11, payload <= 16)", fp=_FP_BP, unwind=6, timeout=900,
          cases=[dict(id="avail0", defines={"INODE_AVAIL": 0}, tier="quick"),
